@@ -844,7 +844,12 @@ impl<'a> Closure<'a> {
                     }
                     let c = r["capacity"].as_u64().unwrap_or(0);
                     if c > 0 {
-                        let n = c.min(rem);
+                        // mostly the whole grant; sometimes only part of it, followed by a capacity wait while the rest of
+                        // the grant is still unused (a legal program: poll_capacity then parks until capacity GROWS)
+                        // (only while the reservation is not yet fully served: otherwise no growth is owed and the program
+                        // would be waiting for nothing)
+                        let partial = c > 1 && rem > 1 && c < rem.min(20000) && self.rng.chance(1, 2);
+                        let n = if partial { 1 + self.rng.below(c.min(rem) - 1) } else { c.min(rem) };
                         let eos = n == rem;
                         let r = self.exec(json!({"op":"send_data","h":h,"len":n,"eos":eos}));
                         self.tasks[ti].last = r.clone();
@@ -856,6 +861,17 @@ impl<'a> Closure<'a> {
                         if eos {
                             self.tasks[ti].done = true;
                             return;
+                        }
+                        if partial && self.rng.chance(1, 2) {
+                            let r = self.exec(json!({"op":"poll_capacity","h":h}));
+                            self.tasks[ti].last = r.clone();
+                            if r.as_str() == Some("Pending") {
+                                return;
+                            }
+                            if r.as_str() == Some("None") || Self::is_err(&r) {
+                                self.tasks[ti].done = true;
+                                return;
+                            }
                         }
                         continue;
                     }
